@@ -20,15 +20,17 @@ CONSTANTS
 
 \* defects of the nonce: answered 438 + NONCE + REALM
 NonceDefects == {"forgedNonce", "mutTsNonce", "mutMacNonce", "otherInstNonce", "staleNonce", "futureNonce",
-                 "emptyNonce", "garbageNonce", "longNonce"}
+                 "emptyNonce", "garbageNonce", "longNonce", "dupNonce"}
+\* ("dupNonce": integrity computed over a stale nonce, a second NONCE with a fresh value appended behind MESSAGE-INTEGRITY)
 \* defects found before / after the nonce check: answered with an error without success (400)
-OtherDefects == {"noNonce", "noUser", "noRealm", "noRealmKeyed", "otherRealm", "ghostUser", "ghostEmptyKey", "wrongPw", "truncMI", "flipMI", "flipBody", "otherUserKey"}
+OtherDefects == {"noNonce", "noUser", "noRealm", "noRealmKeyed", "otherRealm", "ghostUser", "ghostEmptyKey", "revoked", "wrongPw", "truncMI", "flipMI", "flipBody", "otherUserKey"}
 
 \* ("ghostEmptyKey": a username the operator's handler does not know, MESSAGE-INTEGRITY computed with the EMPTY key --
 \*  the key a handler that answers ("", nil, false) hands back, which anybody can compute.
 \*  In GEN_anon the only user is one the operator's handler identifies by the empty user id: a request the gate
 \*  has merely challenged carries that same empty id, so a handler that went on after the challenge would find the owner.)
 
+\* ("revoked": the right key of a user the operator's handler has stopped knowing since the allocation was made)
 Challenge(c, m) == [k |-> "resp", to |-> c, m |-> m, cls |-> "err", code |-> -1, nonce |-> TRUE, realm |-> TRUE]
 
 (* authenticateRequest, in the code's order of checks *)
